@@ -250,7 +250,7 @@ func Compare(w *mc.World, m *model.State, tracked []string) []Disc {
 				add(Disc{Kind: "str.zerotime", Detail: fmt.Sprintf("stream %s: deposit-zero time implementation %s, model %s ns", k, s.DepositZeroTime.UTC().Format(time.RFC3339Nano), st.Z)})
 			}
 			if timeNs(s.LastOutflowTime).Cmp(st.L) != 0 {
-				add(Disc{Kind: "str.lastoutflow", Detail: fmt.Sprintf("stream %s: last outflow time implementation %s, model %s ns (now %d)", k, s.LastOutflowTime.UTC().Format(time.RFC3339Nano), st.L, m.Now)})
+				add(Disc{Kind: "str.lastoutflow", Detail: fmt.Sprintf("stream %s: last outflow time implementation %s, model %s ns (now %s)", k, s.LastOutflowTime.UTC().Format(time.RFC3339Nano), st.L, m.Now)})
 			}
 			// advertised schedule must be sustainable: D >= r * floor(Z - L)
 			zl := new(big.Int).Sub(timeNs(s.DepositZeroTime), timeNs(s.LastOutflowTime))
